@@ -3,6 +3,7 @@ import math
 import numpy as np
 from harness.props._common import run_eval, replay_eval
 
+PROPS_FILES = ["P_C19", "P_C19mx"]
 PROPS_FILE = "P_C19"
 RULE = ("structural tie: the top-level instruction list of BlackBoxInitialize(...).definition must be (U, I_t, U^dagger, I_s)^r, U with "
         "r = floor(pi sqrt(N)/4) (the property's formula, computed independently), global phase pi iff r is odd, U = H on the data "
@@ -10,7 +11,7 @@ RULE = ("structural tie: the top-level instruction list of BlackBoxInitialize(..
         "C19_oracle_flag), I_t = diag(-1,1) on the flag, I_s = I - 2|0..0><0..0|; direct evaluation "
         "(harness/props/c19_eval.py): flag-0 branch vs sin((2r+1)theta) a. distinct = distinct vectors; non-trivial = n >= 2")
 ASSUMPTIONS = ["Qiskit's UCRYGate/UCRZGate are the ideal multiplexers with target = first qubit and control index = value of the remaining qubits (validated numerically per run)",
-               "the reduction of the n-qubit circuit to the two-dimensional recurrence is evaluated, not proved"]
+               "the reduction to the two-dimensional recurrence is proved at the matrix level (C19_round_on_span, C19_reflection) under the premises 'U unitary, U|0> = sin t|g> + cos t|b> with g, b orthonormal, P g = g, P b = 0', which are evaluated numerically, not derived from the gate list"]
 TRUSTED = ["top-level instruction list of the definition"]
 
 
